@@ -22,7 +22,7 @@ extern "C" void __asan_on_error()
   if( g_errors <= 40 ) std::fprintf(stdout, "ASAN-ERROR entry=%s a=%lld b=%lld\n", g_entry, static_cast<long long>(g_a), static_cast<long long>(g_b));
   std::fflush(stdout);
   }
-extern "C" const char* __asan_default_options() { return "halt_on_error=0:detect_leaks=0:print_summary=0:log_path=/dev/null"; }
+extern "C" const char* __asan_default_options() { return "halt_on_error=0:detect_leaks=0:print_summary=0"; }
 
 static std::vector<i64> S_set(int w, int r)
   {
